@@ -319,7 +319,8 @@ var c13extra = []string{
 	"SELECT x FROM m WHERE time > now() - 10s / 0.5", "SELECT x FROM m WHERE time > now() - 10s * 0.5", "SELECT x FROM m WHERE time > 10s / 0",
 	"SELECT x FROM m WHERE time > 10s / -0.5", "SELECT x FROM m WHERE time > 10s / 0.0", "SELECT x % 0 FROM m", "SELECT x / 0 FROM m WHERE 1 % 0 = 0",
 	"SELECT 10s / 0.5 FROM m", "SELECT 10s * 1.5, 10s / 3, 10s / 0.999 FROM m", "SELECT x FROM m WHERE a =~ /x/ + 1", "SELECT x FROM m WHERE a =~ /x/ AND b !~ /y/ * 2",
-	"SELECT x FROM m WHERE a =~ /x/ = true", "SELECT x FROM m WHERE (a =~ /x/) OR a !~ /(/", "SELECT x FROM m GROUP BY time(0s)", "SELECT x FROM m GROUP BY time(0s, 1s)",
+	"SELECT x FROM m WHERE a =~ /x/ = true", "SELECT x FROM m WHERE a =~ /^[^\\s\\S]$/ OR a !~ /^server[^\\w\\W]$/", "SELECT x FROM m WHERE a =~ /^$/ AND a =~ /^()$/ AND a !~ /^a{0}$/ AND a =~ /^(a|)$/",
+	"SELECT x FROM m WHERE a =~ /^(?i)$/ AND a =~ /^[a-a]$/ AND a =~ /^\\b$/ AND a =~ /^(?:)$/ AND a =~ /^[[:alpha:]&&[^a-z]]$/", "SELECT x FROM m WHERE (a =~ /x/) OR a !~ /(/", "SELECT x FROM m GROUP BY time(0s)", "SELECT x FROM m GROUP BY time(0s, 1s)",
 	"SELECT x FROM m GROUP BY time(-1s)", "SELECT x FROM m GROUP BY time(1s, 0s)", "SELECT x FROM m GROUP BY time(x)", "SELECT x FROM m GROUP BY time()", "SELECT x FROM m GROUP BY time(1s, 2s, 3s)",
 	"SELECT x FROM m GROUP BY time('a')", "SELECT x FROM m GROUP BY time(1s, now())", "SELECT x FROM m GROUP BY time(1s, '2000-01-01T00:00:00Z')", "SELECT x FROM m GROUP BY f(1)", "SELECT x FROM m GROUP BY *, /re/, time(1s)",
 	"SELECT \"\" FROM m", "SELECT * FROM m GROUP BY *", "SELECT /re/, * FROM /re/", "SELECT *::tag, *::field FROM m", "SELECT mean(*::tag) FROM m", "SELECT count(distinct(*)) FROM m",
